@@ -2,6 +2,7 @@
 from __future__ import annotations
 
 import importlib
+import os
 import json
 import sys
 import traceback
@@ -42,10 +43,30 @@ def main(argv):
         run_all()
         mod.run(ctx)
         rc = ctx.finish(level="proof")
-    except Exception:
+    except Exception as ex:
         traceback.print_exc()
-        print(f"INFRASTRUCTURE-ERROR property={pid}", flush=True)
-        return 2
+        # a harness step that the pinned tree passes raised *inside the implementation*: the correspondence for that step no longer
+        # checks (reported as such, with the traceback as the replay); anything raised by the harness itself is an infrastructure error
+        from .common import REPO
+
+        frames = traceback.extract_tb(ex.__traceback__)
+        inner = frames[-1] if frames else None
+        in_impl = inner is not None and os.path.abspath(inner.filename).startswith(str(REPO) + os.sep)
+        if not in_impl:
+            print(f"INFRASTRUCTURE-ERROR property={pid}", flush=True)
+            return 2
+        step = next((f for f in reversed(frames) if "/harness/" in f.filename), None)
+        try:
+            ctx.violation(f"correspondence no longer checks: the harness step {os.path.basename(step.filename) if step else '?'}:"
+                          f"{step.lineno if step else '?'} raised {type(ex).__name__} inside the implementation "
+                          f"({os.path.relpath(inner.filename, str(REPO))}:{inner.lineno}), which it does not on the pinned tree",
+                          dict(kind="impl-raised", exception=f"{type(ex).__name__}: {str(ex)[:300]}", traceback=traceback.format_exc()[-3000:]),
+                          no_input=True)
+            rc = ctx.finish(level="proof")
+        except Exception:
+            traceback.print_exc()
+            print(f"INFRASTRUCTURE-ERROR property={pid}", flush=True)
+            return 2
     print(f"{pid} {tier}: violations={len(ctx.violations)} known={len(ctx.known)} wall={ctx.coverage.get('wall', '')}")
     return rc
 
